@@ -29,7 +29,7 @@ RULE = ('Include graphs of 1-6 files in a fresh temporary directory tree (sub-di
         'root spelling; or a raising body after an edit.')
 ASSUMPTIONS = ['symlinks, absolute includes under a relative root, non-UTF-8 and unwritable files are not generated (the property does not speak about them)']
 SHRINK_LISTS = ('edits',)
-REQUIRED_CLASSES = ('mode:recursive', 'mode:single', 'cr-content-edited', 'spelling:bare', 'spelling:abs', 'glob', 'cycle', 'raise-after-edit',
+REQUIRED_CLASSES = ('workspace-dir-with-glob-chars', 'mode:recursive', 'mode:single', 'cr-content-edited', 'spelling:bare', 'spelling:abs', 'glob', 'cycle', 'raise-after-edit',
                     'removed-entry', 'added-entry')
 
 OLD_NS = 1_000_000_000 * 10 ** 9 // 10 ** 9 * 10 ** 9  # a fixed old mtime (2001)
@@ -166,6 +166,12 @@ def _spell(root: str, spelling: str, tmp: str) -> Any:
 def _run(case: dict, res: Result, tmp: str) -> Result:
     files = case['files']
     classes = set()
+    if case.get('top'):
+        # the workspace itself lives in a directory whose name contains glob metacharacters ('Finance [2020]' is an ordinary name):
+        # only include *patterns* are globs, the location of the including file is not
+        tmp = os.path.join(tmp, case['top'])
+        os.makedirs(tmp, exist_ok=True)
+        classes.add('workspace-dir-with-glob-chars')
     texts = {}
     for name, f in files.items():
         text = f['text']
@@ -398,7 +404,8 @@ def _build(tier: str):
                 e['text'] = '2000-01-01 open Assets:Added\n' if g.p(0.5) else '2000-01-01 open Assets:Added\r\n; c\r\n'
             edits.append(e)
         return {'files': files, 'root': root, 'mode': 'single' if single else 'recursive', 'cycle': cycle,
-                'spelling': g.pick(['bare', 'bare', 'dot', 'redundant', 'abs', 'path', 'abspath']), 'edits': edits, 'raise': g.p(0.2)}
+                'spelling': g.pick(['bare', 'bare', 'dot', 'redundant', 'abs', 'path', 'abspath']), 'edits': edits, 'raise': g.p(0.2),
+                'top': g.pick(['y[1]', 'Finance [2020]', 'a*b', 'q?', '[x]']) if g.p(0.3) else ''}
     return build
 
 
